@@ -18,7 +18,7 @@
 // std::thread::hardware_concurrency() is interposed at link time so that the job count
 // min(4*hw, idx_max) can be forced.
 //
-//   sched_driver <vector file> [<first index>]
+//   sched_driver <vector file> [<first index> [<fork mode 0|1>]]
 //
 // vector file:  int32 count, then per vector
 //   int32 kernel   0 = permanent_cpp, 1 = permanent_laplace_cpp
@@ -190,6 +190,7 @@ int main(int argc, char **argv)
     driver_setup_streams();
     Reader rd(argv[1]);
     long first = argc > 2 ? atol(argv[2]) : 0;
+    bool fork_mode = argc > 3 && atoi(argv[3]) == 1;
     long count = rd.i32();
     for (long idx = 0; idx < count; idx++)
     {
@@ -211,11 +212,12 @@ int main(int argc, char **argv)
         g_team_cap = team;
         g_order_kind = order_kind;
         g_order.assign(order.begin(), order.end());
-        mark_begin(idx);
-        if (dtype == 0)
-            run_one<float>(idx, kernel, nrows, ncols, rows, cols, entries);
-        else
-            run_one<double>(idx, kernel, nrows, ncols, rows, cols, entries);
+        guarded(idx, fork_mode, [&]() {
+            if (dtype == 0)
+                run_one<float>(idx, kernel, nrows, ncols, rows, cols, entries);
+            else
+                run_one<double>(idx, kernel, nrows, ncols, rows, cols, entries);
+        });
     }
     printf("DONE %ld\n", count);
     return 0;
